@@ -17,7 +17,7 @@ ASSUMPTIONS = ["R-EVAL reference semantics (DESIGN.md Appendix B)", "Django 6.1 
 
 class Django(SC.Backend):
     name = "django"
-    cap = {"neg": False, "null_left": True, "matchesPattern": True, "second": True, "time": True, "bare_bool": False, "boolcmp": "restricted",
+    cap = {"neg": False, "null_left": True, "matchesPattern": True, "second": True, "time": True, "bare_bool": False, "bare_bool_in_logic": False, "boolcmp": "restricted",
            "indexof": True, "concat": True, "literal_haystack": True}
     defect_models = []
     variants = ["shorthand"]
@@ -39,6 +39,9 @@ def run(ctx):
     django_h.setup()
     n = SC.generic_layer(ctx, BK, "full", 0) + SC.generic_layer(ctx, BK, "full", 1) + SC.generic_layer(ctx, BK, "full", 2)
     ctx.layer("full-alphabet", k_max=2, filters=n, exhaustive=True)
+    nb = SC.boolean_operand_layer(ctx, BK)
+    ctx.layer("boolean-operands", filters=nb, exhaustive=True,
+              note="eq/ne between every ordered pair of boolean-valued lookups (comparisons, boolean functions, null tests, in-tests, the boolean field, literals), alone, negated and beside another clause; the bare boolean field as a predicate")
     nd = SC.deep_layer(ctx, BK, (4, 6) if ctx.quick else (4, 6, 8))
     ctx.layer("pumped-towers", filters=nd, depths=[4, 6] if ctx.quick else [4, 6, 8], exhaustive=True,
               note="every self-composable constructor and every ordered pair of them, stacked on the left and right spine; long in-lists and and/or chains")
